@@ -5,7 +5,7 @@ use crate::gens;
 use crate::p03::sample_in;
 use crate::spec::*;
 use crate::{ensure, fail};
-use fidget_core::eval::{BulkEvaluator, Function, MathFunction, TracingEvaluator};
+use fidget_core::eval::{BulkEvaluator, MathFunction, TracingEvaluator};
 use fidget_core::shape::{EzShape, Shape, ShapeVars};
 use fidget_core::types::{Grad, Interval};
 use fidget_core::vm::VmFunction;
